@@ -204,6 +204,11 @@ func mdat(n int) []byte {
 	return box("mdat", p)
 }
 
+// lmdat: mdat behind the 16-byte largesize header (what MdatBox.Encode writes when LargeSize is set)
+func lmdat(n int) []byte {
+	return lbox("mdat", mdat(n)[8:])
+}
+
 // sidx version 0, one track, refs of (type, size)
 type sref struct {
 	typ  uint32
